@@ -27,7 +27,7 @@ class Obl:
                  loops=False, defines=None, cbmc=(), mode="proof", bound="",
                  timeout=900, mem_gb=8, includes=(), srcs=(), termination=False,
                  functions=(), replayable=None, note="", cxx=False, assumed=(),
-                 instr=(), nondet_static=False, solver=None, case=None):
+                 instr=(), nondet_static=False, solver=None, case=None, canary=False):
         self.name, self.prop, self.harness, self.entry = name, prop, harness, entry
         self.enforce, self.replace, self.loops = enforce, list(replace), loops
         self.defines = dict(defines or {})
@@ -41,6 +41,9 @@ class Obl:
         self.instr = list(instr)
         self.solver = solver
         self.case = case                        # generated-family case description (for evidence samples)
+        self.canary = canary                    # vacuity guard: compiled with -DVERIF_CANARY, every V_COVER must be reachable
+        if canary:
+            self.defines["VERIF_CANARY"] = None
 
 
 class Result:
@@ -197,6 +200,17 @@ def run_obligation(ctx, obl, want_trace=False, trace_props=()):
             r.failed.append((pr.get("property", "?"), pr.get("description", "")))
     if "QUANTIFIER IGNORED" in r.detail:
         r.status = "error"
+        return r
+    if obl.canary and not want_trace:
+        can = [pr for pr in results if pr.get("description", "").startswith("CANARY reachable")]
+        unreached = [pr.get("description") for pr in can if pr.get("status") != "FAILURE"]
+        r.failed = []
+        if not can:
+            r.status, r.detail = "error", "canary obligation without V_COVER goals"
+        elif unreached:
+            r.status, r.detail = "error", "VACUOUS: cover goals not reachable: " + "; ".join(unreached[:5])
+        else:
+            r.status = "pass"
         return r
     if not r.failed:
         r.status = "pass" if r.n_props > 0 else "error"
